@@ -13,7 +13,7 @@ RULE = ("every frequency-of-frequency vector of the bound (as list and ndarray) 
         "missing values; non-trivial = f2>0 (richness) / non-empty intersection (overlap)")
 ASSUMPTIONS = ["float results compared with the exact rational closed form to 1e-12 relative",
                "jaccard_index: missing values only inside Series (documented behaviour); ratio forms only where both element sets are non-empty after removal"]
-REQUIRED_CLASSES = {"all": ["f2-zero", "f2-positive", "length-1-vector", "set-container", "series-with-missing", "duplicates", "large-counts", "categorical-with-unused-categories", "tuple-elements"]}
+REQUIRED_CLASSES = {"all": ["f2-zero", "f2-positive", "length-1-vector", "set-container", "series-with-missing", "duplicates", "large-counts", "categorical-with-unused-categories", "tuple-elements", "dict-or-index-container", "string-as-collection"]}
 MIN_OUTCOMES = 8
 NAN = float("nan")
 ELEMS = ("a", "b", "c", None, NAN)
@@ -39,6 +39,10 @@ def spaces(tier):
             for a in itertools.product(range(6), repeat=n):
                 yield ("tuples", a)
 
+    def gen_strings():
+        for A in ("", "a", "ab", "aab", "abc", "cab"):
+            yield ("strings", A)
+
     def gen_ov():
         idx = range(len(ELEMS))
         lists = [t for n in range(0, 4) for t in itertools.product(idx, repeat=n)]
@@ -49,6 +53,7 @@ def spaces(tier):
         Space("frequency-of-frequency-vectors", gen_ff, "all vectors of length 1..4 with entries 0..4 (quick) / length 1..5, entries 0..5 (thorough), as list and ndarray, m in {2,5}"),
         Space("magnitude-boundary-family", gen_mag, "f1 in {2^8-1, 2^8, 55108, 55109, 2^16-1, 2^16, 2^21+1, 2^31-1} x f2 in {0, 1, 3, 1000, 2^16, 2^21+1}, as list and as int64 ndarray (int64 powers of such counts overflow)"),
         Space("tuple-valued-elements", gen_tuples, "collections of 0..2 elements from {(a,b), (None,b), (a,), (a,b,c), None, (NaN,x)} against each other in list/set/tuple/Series containers (overlap, overlap_coefficient)"),
+        Space("strings-as-collections", gen_strings, "6 x 7 pairs of short strings (iterables of characters) as str / list / tuple"),
         Space("collection-pairs", gen_ov, "A, B in all lists of length 0..3 over {a,b,c,None,NaN} (156 x 156 pairs; one case = one A against every B) x {list, tuple, set, Series}; also with numeric elements"),
     ]
 
@@ -121,6 +126,24 @@ def check_case(case, acc):
         for n in range(0, 4):
             for b in itertools.product(idx, repeat=n):
                 _check_overlap(acc, a, b)
+    elif kind == "strings":
+        # a str is an iterable of its characters
+        A = case[1]
+        acc.cls("string-as-collection")
+        for B in ("", "a", "ab", "ba", "abc", "cc", "xyz"):
+            sa, sb = set(A), set(B)
+            for x, y in ((A, B), (A, list(B)), (tuple(A), B)):
+                r = acc.call(pyrepseq.overlap, x, y)
+                if raised(r) or r != len(sa & sb):
+                    acc.fail("overlap/string-as-collection", ("strings", A), len(sa & sb), r, note="B=%r" % (B,))
+                    return
+                if sa and sb:
+                    r = acc.call(pyrepseq.overlap_coefficient, x, y)
+                    rj = acc.call(pyrepseq.jaccard_index, x, y)
+                    if raised(r) or not feq(r, len(sa & sb) / min(len(sa), len(sb))) or raised(rj) or not feq(rj, len(sa & sb) / len(sa | sb)):
+                        acc.fail("overlap_coefficient/string-as-collection", ("strings", A), len(sa & sb) / min(len(sa), len(sb)), (r, rj), note="B=%r" % (B,))
+                        return
+                acc.ok(("str", len(sa & sb)), nontrivial=bool(sa & sb))
     elif kind == "tuples":
         # hashable tuple elements (e.g. paired-chain clonotypes): a tuple with a None/NaN component or of another length is an
         # ordinary element, only stand-alone None/NaN are missing
@@ -165,6 +188,11 @@ def _box(idxs, cont, numeric):
         return set(vals)
     if cont == "series":
         return pd.Series(vals, dtype=object) if not vals else pd.Series(vals)
+    if cont == "dict":
+        # any iterable is converted to a set: iterating a dict (or Counter) yields its keys
+        return {v: n for n, v in enumerate(vals)}
+    if cont == "index":
+        return pd.Index(vals, dtype=object)
     if cont == "categorical":
         # a categorical column after filtering: categories that no longer occur are still listed
         return pd.Series(pd.Categorical(vals, categories=sorted({v for v in vals if isinstance(v, (str, int))} | ({"zz", "a"} if not numeric else {77, 1}))))
@@ -181,7 +209,7 @@ def _check_overlap(acc, a, b, only=None):
         acc.cls("duplicates")
     inter, union = len(sa & sb), len(sa | sb)
     conts = ("list", "tuple", "set", "series")
-    for ca in conts + ("categorical",):
+    for ca in conts + ("categorical", "dict", "index"):
         for cb in (conts if ca in ("list", "series") else ("list", ca)):
             for numeric in ((False, True) if (ca, cb) in (("list", "list"), ("series", "series"), ("set", "set")) else (False,)):
                 if only is not None and (ca, cb, numeric) != only[:3]:
@@ -192,6 +220,10 @@ def _check_overlap(acc, a, b, only=None):
                     acc.cls("series-with-missing")
                 if "categorical" in (ca, cb):
                     acc.cls("categorical-with-unused-categories")
+                if "dict" in (ca, cb) or "index" in (ca, cb):
+                    acc.cls("dict-or-index-container")
+                    if any(ELEMS[i] is None or ELEMS[i] != ELEMS[i] for i in a + b):
+                        continue        # NaN keys / missing labels in a dict or Index: outside the quantifier
                 for fn in ("overlap", "overlap_coefficient", "jaccard_index"):
                     if fn == "jaccard_index":
                         if (miss_a and ca not in ("series", "categorical")) or (miss_b and cb not in ("series", "categorical")) or union == 0:
